@@ -159,16 +159,31 @@ def checkRetry (j : Json) : Except String Verdict := do
   return { nontrivial := partialSeen, mismatch := mm, specfail := sf }
 
 /-! ### C18 -/
-def parseChains (j : Json) : Except String Chains := do
+/-- the network filters of the inbound listener as the decoder produces them: per chain the connection manager (with the
+chain's port and, unless it has no route specifier, the bucket of its rate-limit filter — 0 when there is none), then a
+Thrift-proxy filter where the chain has one (no port, an inline route table without bucket) -/
+def parseFilters (j : Json) : Except String (List NFilter) := do
   let a ← j.getArr?
-  a.toList.mapM (fun c => do
+  let fss ← a.toList.mapM (fun c => do
     let port ← jNat c "port"
     let kind := jStrD c "kind" "rds"
     let bucket := match (c.getObjVal? "bucket").toOption.bind (fun b => b.getInt?.toOption) with
       | some b => b
       | none => -1
+    let thrift : NFilter := ⟨.thrift, 0, some 0⟩
+    if kind = "thrift" then pure [thrift] else
     -- an HTTP connection manager without route specifier yields no inline route config
-    pure (port, if kind = "none" then none else some (if bucket < 0 then 0 else bucket.toNat)))
+    let hcm : NFilter := ⟨.http, port, if kind = "none" then none else some (if bucket < 0 then 0 else bucket.toNat)⟩
+    pure (if jBoolD c "thriftAfter" false then [hcm, thrift] else [hcm]))
+  pure fss.flatten
+
+/-- the listener as `getLimiterPolicy` reads it (scope: fact from the source) -/
+def parseChains (j : Json) : Except String Chains := do
+  pure (chainsOf Generated.limiterScope (← parseFilters j))
+
+/-- the filter chains that carry an HTTP rate limit, for the specification: a Thrift-proxy filter configures none -/
+def parseHttpChains (j : Json) : Except String Chains := do
+  pure (chainsOf .httpOnly (← parseFilters j))
 
 def showLimit (q : Option Nat) : String := match q with | none => "inf" | some n => toString n
 
@@ -185,6 +200,7 @@ def checkLimit (j : Json) : Except String Verdict := do
   let mut registered := false
   -- the start-up handshake already delivered an inbound listener: one chain, no port, no rate-limit filter
   let mut last : Option (Option Chains) := some (some [(0, some 0)])
+  let mut lastSpec : Option (Option Chains) := some (some [(0, some 0)])
   let mut mm : Option String := none
   let mut sf : Option String := none
   let mut updates := 0
@@ -205,6 +221,9 @@ def checkLimit (j : Json) : Except String Verdict := do
         | some c => do pure (some (← parseChains c))
         | none => pure none
       last := some inb
+      lastSpec := some (← match jObj? e "inbound" with
+        | some c => do pure (some (← parseHttpChains c))
+        | none => pure none)
       updates := updates + 1
       if registered then st := limitApply port st inb
     | x => throw s!"event {x}"
@@ -215,7 +234,7 @@ def checkLimit (j : Json) : Except String Verdict := do
       let conns := match lim.getObjVal? "conns" with | .ok (.str s) => s | .ok v => (match v.getNat? with | .ok n => toString n | _ => "?") | _ => "?"
       -- spec
       if sf.isNone then
-        match last with
+        match lastSpec with
         | some inb =>
           let want := showLimit (Spec.Handlers.wantLimit port inb)
           if implLimit lim != want then sf := some s!"C18.limit_latest: expected QPS {want}, got {implLimit lim}"
